@@ -1,5 +1,7 @@
 import Enc.Lemmas.Proto
 import Enc.Lemmas.ProtoDecode
+import Enc.Lemmas.ProtoScanUnmarshal
+import Enc.Lemmas.ProtoScanTrunc
 /-!
 # C07 — proto decoding is total and ignores unknown fields
 Property theorems only (proofs in Enc/Lemmas/ProtoDecode.lean).
@@ -76,5 +78,159 @@ theorem unmarshal_skip_anywhere (Fs : Fields) (number : Nat) (pre rec rest : Byt
 theorem isRecord_canonical (number : Nat) (w : Wire) (p : Bytes) (h : number < 2 ^ 61)
     (hp : IsPayload w.num p) : IsRecord number (encodeTag number w ++ p) :=
   Lemmas.ProtoDecode.isRecord_canonical number w p h hp
+
+/-! ## the wire-level API: `Parse` and `Scan` (model `Enc/Model/ProtoScan.lean`, reference `Spec.Protobuf.records`)
+
+Every statement is for messages a Go program can hold, `len(m) < 2^63` (`GoLen`): the model computes `len(m)-n`,
+`uint64(·)`, `int(l)`, `n+int(l)` with Go's wrap-around and checks every slice expression. -/
+section WireAPI
+open Enc.Model.ProtoScan Enc.Lemmas.ProtoScan
+open Enc.Spec.Protobuf (records RawRec)
+open Enc.Lemmas.ProtoWire (tyOK)
+
+/-- **`Parse` never faults**, whatever the bytes (truncated, over-long varints, wire types 3/4/6/7, lengths ≥ 2^63 …):
+all five results are returned, and an error is one of three classes -/
+theorem parse_total (m : Bytes) (hm : GoLen m) :
+    (∀ e, parseX m ≠ .panic e) ∧ (∀ e, parse m ≠ .panic e) ∧
+    ∀ e, parse m = .err e → e = "unexpectedEof" ∨ e = "varintOverflow" ∨ e = "invalidWireType" :=
+  ⟨fun e h => parse_ne_panic m hm e (by simp only [parse, h]), parse_ne_panic m hm, parse_err m hm⟩
+
+/-- **progress and framing of `Parse`** (no allocation: the value and the remainder are windows of the input).
+On success the input is `hdr ++ value ++ remainder` with a non-empty header (tag, and the length prefix of a varlen
+field): the remainder is a proper suffix, the value is the contiguous sub-list at offset `hdr.length`, and
+`hdr ++ value` is exactly one well-formed field with the reported number and wire type. -/
+theorem parse_consumes (m : Bytes) (hm : GoLen m) (f t : Nat) (v rest : Bytes) (h : parse m = .ok (f, t, v, rest)) :
+    ∃ hdr, hdr ≠ [] ∧ m = hdr ++ v ++ rest ∧ rest.length < m.length ∧ IsField f t v (hdr ++ v) := by
+  obtain ⟨fld, rfl, hf⟩ := (parse_ok_iff m hm f t v rest).mp h
+  obtain ⟨tg, hdr, tag, rfl, htg, _⟩ := hf.split
+  have := htg.pos
+  refine ⟨tg ++ hdr, ?_, by simp, by simp only [List.length_append]; omega, by simpa using hf⟩
+  intro hnil; have := congrArg List.length hnil; simp only [List.length_append, List.length_nil] at this; omega
+
+/-- conversely `Parse` succeeds on every complete field followed by anything (it looks only at the field's own bytes) -/
+theorem parse_of_field (f t : Nat) (v fld rest : Bytes) (hm : GoLen (fld ++ rest)) (hf : IsField f t v fld) :
+    parse (fld ++ rest) = .ok (f, t, v, rest) :=
+  (parse_ok_iff _ hm f t v rest).mpr ⟨fld, rfl, hf⟩
+
+/-- the `RawValue` accessors on what `Parse` returns (their documented domain): `Varint` yields the decoded number,
+`Fixed32` / `Fixed64` never index out of range -/
+theorem accessors_on_parsed (m : Bytes) (hm : GoLen m) (f t : Nat) (v rest : Bytes) (h : parse m = .ok (f, t, v, rest)) :
+    (t = 0 → ∃ u, decodeVarint v = .ok (u, v.length) ∧ rawVarint v = u) ∧
+    (t = 5 → ∃ x, rawFixed32 v = .ok x) ∧ (t = 1 → ∃ x, rawFixed64 v = .ok x) := by
+  obtain ⟨fld, _, hf⟩ := (parse_ok_iff m hm f t v rest).mp h
+  exact accessors_defined f t v fld hf
+
+example : parse [0x12, 0x83, 0x00, 0x61, 0x62, 0x63, 0x08, 0x01] = .ok (2, 2, [0x61, 0x62, 0x63], [0x08, 0x01]) := by
+  decide +kernel
+/-- a declared length of 2^64−1 (`int(l)` = −1), an unknown wire type, a truncated varint, an overflowing tag -/
+example : parse [0x0a, 0xff, 0xff, 0xff, 0xff, 0xff, 0xff, 0xff, 0xff, 0xff, 0x01, 0x00] = .err "unexpectedEof" := by
+  decide +kernel
+example : parse [0x0b] = .err "invalidWireType" ∧ parse [0x08, 0x80] = .err "unexpectedEof" := by decide +kernel
+example : parse [0xff, 0xff, 0xff, 0xff, 0xff, 0xff, 0xff, 0xff, 0xff, 0x02] = .err "varintOverflow" := by decide +kernel
+
+/-- **`Scan` never faults and always terminates**, for every callback: the result is `nil`, one of `Parse`'s three error
+classes, or an error the callback itself returned (the model's loop budget `len(b)+1` is never exhausted) -/
+theorem scan_total {σ : Type} (fn : Callback σ) (b : Bytes) (s : σ) (hb : GoLen b) :
+    (∀ e, (scan b fn s).2 ≠ .panic e) ∧
+    ((scan b fn s).2 = .ok () ∨ ∃ e, (scan b fn s).2 = .err e ∧
+      (ParseErr e ∨ ∃ s' f t v s'', fn s' f t v = (s'', false, some e))) :=
+  scanLoop_total fn (b.length + 1) b s hb (by omega)
+
+/-- `Scan` with a collecting callback and a hand-written loop over `Parse` enumerate the same thing -/
+theorem scan_eq_parse_loop (b : Bytes) : scanList b = parseList (b.length + 1) b := scanList_eq_fields b
+
+/-- **MAIN (`Scan` = the reference record list).** For every byte string, `Scan` calls back, in order, with exactly
+the records the reference parser reads before the first malformed position — same numbers, wire types and payload
+bytes — and nothing else; it returns `nil` exactly when the reference parser accepts the whole input, and otherwise one
+of `Parse`'s three errors (the records before the malformed position HAVE been handed to the callback by then). -/
+theorem scan_eq_records (b : Bytes) (hb : GoLen b) :
+    (scanList b).1 = (records b).1.map (fun r => (r.num, r.wire, r.payload)) ∧
+    ((scanList b).2 = .ok () ↔ (records b).2 = true) ∧
+    ((records b).2 = false → ∃ e, (scanList b).2 = .err e ∧ ParseErr e) := by
+  obtain ⟨e, he⟩ := scanList_records b hb
+  have ht := (fields_total b.length b (Nat.le_refl _) hb).2
+  rw [← scanList_eq_fields] at ht
+  refine ⟨by rw [he]; rfl, ?_, ?_⟩
+  · rw [he]; by_cases hf : (records b).2 = true <;> simp [hf]
+  · intro hf
+    rcases ht with h | ⟨e', h1, h2⟩
+    · rw [he] at h; simp [hf] at h
+    · exact ⟨e', h1, h2⟩
+
+/-- the reference records tile the input: each is one complete field (payload = tail of its bytes), consecutive from
+offset 0, covering everything when the input is well formed -/
+theorem records_tile (b : Bytes) :
+    (∀ r ∈ (records b).1, IsField r.num r.wire r.payload r.raw) ∧
+    ∃ tail, b = ((records b).1.map (·.raw)).flatten ++ tail ∧ ((records b).2 = true → tail = []) :=
+  records_frame b
+
+example : scanList [0x08, 0x96, 0x01, 0x12, 0x01, 0x41, 0x1b] = ([(1, 0, [0x96, 0x01]), (2, 2, [0x41])], .err "invalidWireType")
+    ∧ (records [0x08, 0x96, 0x01, 0x12, 0x01, 0x41, 0x1b]).2 = false := by decide +kernel
+example : scanList [0x00, 0x00, 0x85, 0x80, 0x80, 0x80, 0x10, 0x01, 0x02, 0x03, 0x04]
+    = ([(0, 0, [0x00]), (0x20000000, 5, [1, 2, 3, 4])], .ok ()) := by decide +kernel
+
+/- FULL STATEMENT (not proved): for every `t` with `Codec.Supported (codecOf t) = true` whose base is a struct type
+   (maps, arrays, named types, `RawMessage` fields included), `unmarshal t b = .ok v → (scanList b).2 = .ok ()`.
+   Proved below for the message types of the C12 universe `tyOK` (scalars, strings, bytes, pointers, repeated fields,
+   nested messages; no maps / arrays / named types): what is missing is the fact "a map entry / array / RawMessage
+   codec consumes the whole `data` window carved for it" for those codecs. -/
+/-- **MAIN (`Scan` and `Unmarshal` consume the same top-level fields), partial universe.** If `Unmarshal` into a
+message type accepts `b`, then `Scan` succeeds on `b`, the records it enumerates are the reference records, and their
+bytes concatenated are the whole input: the struct loop of `Unmarshal` stepped through exactly these fields. -/
+theorem scan_matches_unmarshal_partial (fs : Fields) (hty : tyOK (.struct fs) = true) (b : Bytes)
+    (hb : GoLen b) (v : Val) (h : unmarshal (.struct fs) b = .ok v) :
+    (scanList b).2 = .ok () ∧
+    (scanList b).1 = (records b).1.map (fun r => (r.num, r.wire, r.payload)) ∧
+    ((records b).1.map (·.raw)).flatten = b := by
+  have hs := scan_of_unmarshal fs hty b hb v h
+  obtain ⟨_, tail, hcov, htail⟩ := records_frame b
+  have := htail (records_ok_of_scan b hb hs)
+  subst this
+  exact ⟨hs, (scan_eq_records b hb).1, by rw [List.append_nil] at hcov; exact hcov.symm⟩
+
+/-- … equivalently: whenever `Scan` reports an error, `Unmarshal` rejects the input too -/
+theorem unmarshal_fails_of_scan_fails (fs : Fields) (hty : tyOK (.struct fs) = true) (b : Bytes)
+    (hb : GoLen b) (e : String) (h : (scanList b).2 = .err e) : ∀ v, unmarshal (.struct fs) b ≠ .ok v := by
+  intro v hv
+  have := scan_of_unmarshal fs hty b hb v hv
+  rw [h] at this; simp at this
+
+/-- non-vacuity, on the message type `exFs` = `struct { A int32; B []string }`: a message with an undeclared fixed32
+field 3 at the end is accepted by `Unmarshal`, and `Scan` enumerates its three records -/
+example : tyOK (.struct exFs) = true ∧
+    outcome (unmarshal (.struct exFs) [0x08, 0x05, 0x12, 0x01, 0x41, 0x1d, 1, 2, 3, 4]) = "ok" := ⟨exFs_ty, exFs_accepts⟩
+example : scanList [0x08, 0x05, 0x12, 0x01, 0x41, 0x1d, 1, 2, 3, 4]
+    = ([(1, 0, [0x05]), (2, 2, [0x41]), (3, 5, [1, 2, 3, 4])], .ok ()) := by decide +kernel
+/-- the exact converse is FALSE: `Scan` enumerates a fixed32 record for field 1, `Unmarshal` rejects it because the
+target declares field 1 as a varint (type mismatch) -/
+example : scanList [0x0d, 1, 2, 3, 4] = ([(1, 5, [1, 2, 3, 4])], .ok ())
+    ∧ outcome (unmarshal (.struct exFs) [0x0d, 1, 2, 3, 4]) = "err:wireType" := ⟨by decide +kernel, exFs_mismatch⟩
+/-- and the struct hypothesis is needed: a top-level scalar target reads `05` as the number 5, `Scan` as a truncated
+fixed32 field with number 0 -/
+example : outcome (unmarshal (.int .i64) [0x05]) = "ok" ∧ (scanList [0x05]).2 = .err "unexpectedEof" :=
+  ⟨by simp only [unmarshal, codecOf]; decide +kernel, by decide +kernel⟩
+
+/-- **MAIN (truncation).** (1) Cut anywhere, the records `Scan` enumerates from a prefix are a prefix of the records
+of the whole. (2) If `Scan` succeeds on a prefix — the prefix ends at a record boundary — the enumeration of the whole is
+the enumeration of the prefix followed by that of the rest. (3) For a well-formed message, `Scan` succeeds on a prefix
+exactly when the prefix ends after the first `k` records for some `k`; every other cut is an error (one of `Parse`'s
+three classes, by `scan_eq_records`). -/
+theorem scan_truncated (p q : Bytes) (hb : GoLen (p ++ q)) :
+    (scanList p).1 <+: (scanList (p ++ q)).1 ∧
+    ((scanList p).2 = .ok () → scanList (p ++ q) = ((scanList p).1 ++ (scanList q).1, (scanList q).2)) ∧
+    ((scanList (p ++ q)).2 = .ok () →
+      ((scanList p).2 = .ok () ↔ ∃ k, p = (((records (p ++ q)).1.map (·.raw)).take k).flatten)) := by
+  simp only [scanList_eq_fields]
+  refine ⟨fields_prefix p.length p q (Nat.le_refl _) hb, fields_append p.length p q (Nat.le_refl _) hb, ?_⟩
+  intro hw
+  have := scan_cut p q hb (by rw [scanList_eq_fields]; exact hw)
+  rwa [scanList_eq_fields] at this
+
+example : (scanList [0x08, 0x05, 0x12, 0x01, 0x41]).2 = .ok ()
+    ∧ (scanList [0x08, 0x05, 0x12, 0x01]).2 = .err "unexpectedEof" := by decide +kernel
+example : scanList [0x08, 0x05] = ([(1, 0, [0x05])], .ok ())
+    ∧ ((records [0x08, 0x05, 0x12, 0x01, 0x41]).1.map (·.raw)).take 1 = [[0x08, 0x05]] := by decide +kernel
+
+end WireAPI
 
 end Enc.Props.C07
